@@ -517,8 +517,28 @@ def run_c20(ctx):
 
 
 def reader_models(ctx):
-    for cfg in ('Reader_ideal.cfg', 'Reader_ideal_short.cfg', 'Reader_explicit.cfg'):
+    for cfg in ('Reader_ideal.cfg', 'Reader_explicit.cfg'):
         model_check(ctx, 'Reader', cfg, workers=4)
+
+
+def reader_conformance(ctx):
+    """code -> model: every NextPacket call of a real Demuxer over npk frames of S bytes (+ a truncated one), per reader kind, explicit /
+    auto-detected size and short-read schedule, must be a result Reader!Call allows in the state reached (trace specification Mon_Reader)"""
+    scheds = {'full': [], 'one': [1], 'seven': [7], 'hundred': [100], 'mix': [1, 193, 2, 188, 5], 's189': [189], 's192': [192]}
+    if ctx.tier != 'quick':
+        scheds.update({'two': [2], 's187': [187], 's188': [188], 's193': [193], 's194': [194], 'mix2': [3, 190, 1, 1, 400]})
+    scs = []
+    for S in (188, 189, 190, 191, 192, 204):
+        for kind in ('seek', 'bufio', 'plain'):
+            for npk in ((0, 1, 2, 3, 5) if ctx.tier == 'quick' else (0, 1, 2, 3, 4, 5, 8, 17)):
+                for extra in (0, 1, 100, 187):
+                    for auto in (True, False):
+                        if auto and S > 192:
+                            continue
+                        for name, sch in scheds.items():
+                            scs.append({'sid': 'rm-%d' % len(scs), 'kind': 'rmodel', 'S': S, 'rkind': kind, 'npk': npk, 'extra': extra, 'auto': auto,
+                                        'sched': sch, 'schedname': name})
+    return ('rmodel', scs, '', 'Mon_Reader')
 
 
 def run_c08(ctx):
@@ -545,7 +565,7 @@ def run_c08(ctx):
             w['sid'] = s['sid'] + '-s47'
             scs.append(w)
     return pipeline(
-        ctx, 'Mon_C08', 'reader', scs, opt='' if quick else 'deep',
+        ctx, 'Mon_C08', 'reader', scs, opt='' if quick else 'deep', more=[reader_conformance(ctx)],
         rule='scenario = stream; per scenario a fixed family of configurations: reader kind {bytes.Reader, bufio, plain, short-read (seekable / not / under '
              'bufio)} x schedule {full, fixed chunk sizes (13 quick / 1..400 thorough), a boundary at sampled/every offset of the first 400 bytes, random} '
              'x {explicit, auto} x frame size {188..192, 204, 250}; each through NextPacket and NextData, compared with the reference run',
@@ -567,7 +587,7 @@ def run_c03(ctx):
         v['run'] = {'api': '' if (not quick or j % 4 == 0) else 'notyped'}
         scs.append(v)
     return pipeline(
-        ctx, 'Mon_C03', 'robust', scs, opt='' if quick else 'deep',
+        ctx, 'Mon_C03', 'robust', scs, opt='' if quick else 'deep', more=[reader_conformance(ctx)],
         rule='scenario = well-formed stream; per scenario the harness derives inputs: the stream itself, empty input, every length-like field the layouts '
              'declare (pointer_field, section_length, program_info/ES_info/descriptor loop lengths, descriptor_length, PES_packet_length, '
              'PES_header_data_length, adaptation_field_length) set to {0, 1, true-1, true+1, max}, inconsistent adaptation flags, truncation at every '
